@@ -24,6 +24,9 @@ var verifC19DegSrc = []string{
 	"declare c cursor for select * from %T where false; open c; var @x; fetch c into @x; fetch last c into @x; fetch absolute 0 c into @x; select cursor c is in range, cursor c count;",
 	"select * from %T where a in (select a from %T) for update;", "create table `n.csv` select * from %T;", "create table `n.csv` (x) select * from %T where false;",
 	"update %T set a = a where a in (select a from %T);", "delete x from %T x inner join %T y on x.a = y.a;", "update x set x.a = y.a from %T x cross join %T y;",
+	"select * from (select * from t where false) x full join %T y on x.a = y.a;", "select * from %T x full join (select * from t where false) y on x.a = y.a;",
+	"select * from (select * from t where false) x left join %T y on x.a = y.a;", "select * from %T x right join (select * from t where false) y using (a);",
+	"select * from (select * from t where false) x full join t y using (a);", "select * from t x full join (select * from t where false) y using (a);",
 	"with recursive r (n) as (select 1 from %T union all select n + 1 from r where n < 2) select * from r;", "select * from %T x, lateral (select count(*) as c from %T y where y.a = x.a) s;",
 }
 var verifC19DegTables = []string{"`e.csv`", "z", "`h.csv`", "t"}
